@@ -183,6 +183,10 @@ func runC18(t *sim.T, tier string) *sim.Violation {
 		}
 	}
 	sched.SetSites(sites, allOn)
+	// yield sites inserted by the instrumenter (present when the check built against the instrumented copy)
+	sched.AutoSalt = uint32(t.Choose(1 << 30))
+	sched.AutoSyncThresh = []uint32{0, 65536, 32768, 65536}[t.Choose(4)]
+	sched.AutoFuncThresh = []uint32{0, 0, 1024, 4096, 16384}[t.Choose(5)]
 	// Half of the runs wrap extension objects in the yield proxy (finer pre-emption, before and after
 	// each interface call); the other half pass the bundled extension objects as they are, so that
 	// library code that inspects the extension's dynamic type is exercised unwrapped too. The tagged
@@ -351,12 +355,24 @@ func runC18(t *sim.T, tier string) *sim.Violation {
 	}
 	inside := 0
 	for _, st := range sched.Steps {
-		if strings.Contains(st, "@ext.") || strings.Contains(st, "@csv.") || strings.Contains(st, "@rt.") {
+		if strings.Contains(st, "@ext.") || strings.Contains(st, "@csv.") || strings.Contains(st, "@rt.") || strings.Contains(st, "@auto:") {
 			inside++
 		}
 	}
 	if inside > 0 && sched.Switches > 0 {
 		t.Probe("switch-inside-parse")
+	}
+	for _, st := range sched.Steps {
+		if strings.Contains(st, "@auto:sync:") {
+			t.Probe("switch-at-instrumented-sync-site")
+			break
+		}
+	}
+	for _, st := range sched.Steps {
+		if strings.Contains(st, "@auto:func:") {
+			t.Probe("switch-at-instrumented-function-entry")
+			break
+		}
 	}
 	if sched.Uncontrolled {
 		t.Probe("task-blocked-on-real-lock")
